@@ -171,7 +171,7 @@ func genHistory(r *rand.Rand, g *wsclient.Gen, seed int64) *history {
 			if live[id] != nil {
 				h.Collision = true
 			}
-			h.Steps = append(h.Steps, newSub(id, r.Intn(4) == 0))
+			h.Steps = append(h.Steps, newSub(id, r.Intn(3) == 0))
 		case x < 28:
 			id := pick()
 			if r.Intn(6) == 0 {
@@ -206,7 +206,7 @@ func genHistory(r *rand.Rand, g *wsclient.Gen, seed int64) *history {
 		case x < 71:
 			h.Steps = append(h.Steps, wsclient.Step{Kind: "touch", PauseUS: pause(r)})
 		case x < 77:
-			h.Steps = append(h.Steps, boomSet(int64(r.Intn(3))))
+			h.Steps = append(h.Steps, boomSet([]int64{0, 1, 1, 2}[r.Intn(4)]))
 		case x < 80: // stale-close motif: failing subscribe, unsubscribe, re-subscribe, back to back
 			id := pick()
 			delete(live, id)
@@ -484,7 +484,11 @@ func runCase(run *vlib.Run, agg *vlib.HitAgg, i int) {
 	for _, an := range a.Anomalies {
 		switch an.Rule {
 		case "envelope-after-end", "write-after-serve-return", "update-after-unsub-processed":
-			run.Violation(i, classOf(an.Inst), witness(map[string]interface{}{"rule": "R2", "what": an.Rule + ": " + an.Detail, "at": an.Seq, "id": an.ID, "instance": an.Inst}))
+			class := classOf(an.Inst)
+			if class == "" && a.MutCollision[an.ID] {
+				class = classOrphan // a mutation's rerunner was overwritten by another mutate with the same id
+			}
+			run.Violation(i, class, witness(map[string]interface{}{"rule": "R2", "what": an.Rule + ": " + an.Detail, "at": an.Seq, "id": an.ID, "instance": an.Inst}))
 		case "second-subscribe-live", "duplicate-subscribe-no-error", "limit-exceeded", "over-limit-no-error", "unsubscribe-log-without-subscribe", "subscribe-log-outside-window", "unsub-no-log":
 			run.Violation(i, "", witness(map[string]interface{}{"rule": "R4/R5", "what": an.Rule + ": " + an.Detail, "at": an.Seq, "id": an.ID, "instance": an.Inst}))
 		}
